@@ -33,6 +33,7 @@ import (
 	"github.com/IrineSistiana/mosdns/v5/pkg/query_context"
 	"github.com/IrineSistiana/mosdns/v5/pkg/upstream"
 	"github.com/IrineSistiana/mosdns/v5/pkg/utils"
+	"github.com/IrineSistiana/mosdns/v5/pkg/verifpoint"
 	"github.com/IrineSistiana/mosdns/v5/plugin/executable/sequence"
 	"github.com/miekg/dns"
 	"github.com/prometheus/client_golang/prometheus"
@@ -302,6 +303,7 @@ func (f *Forward) exchange(ctx context.Context, qCtx *query_context.Context, us 
 	for i := 0; i < concurrent; i++ {
 		select {
 		case res := <-resChan:
+			verifpoint.At("forward.collected", qCtx.Id())
 			r, err := res.r, res.err
 			if err != nil {
 				continue
